@@ -1,7 +1,1047 @@
 /-
-  Property C19 — theorems about QEModel.C19 (stub; to be filled in).
+  Property C19 — closed-form statistics agree with their definitions: theorems about QEModel.C19.
+
+  Clause of properties.jsonl                      theorem(s) (all quantified over every input / size / order)
+  ------------------------------------------------------------------------------------------------------------
+  gini = mean abs. difference / (2 mean)          giniNum_eq_abs, gini_eq_mad
+  gini invariant to permutation / rescaling       gini_perm, gini_scale (c > 0)
+  gini = 1 − 2·area under lorenz_curve            gini_eq_lorenz_area (lorenzArea_eq), gini_range
+  lorenz non-decreasing, convex, ends at (1,1)    lorenz_monotone, lorenz_convex, lorenz_endpoints, lorenz_increment,
+                                                  lorenz_below_diagonal
+  ECDF(x) = fraction of observations ≤ x          ecdf_def, ecdf_range, ecdf_mono, ecdf_top, ecdf_bottom
+  BetaBinomial pdf sums to one                    bb_pdf_sums_to_one, bb_pdf_nonneg
+  BetaBinomial mean / variance / skewness         bb_mean_eq_first_moment, bb_var_eq_central_moment,
+                                                  bb_third_central_moment + bb_skew_sq (square root not modelled)
+  ARMA: ψ_0 = 1 and the ARMA recursion            psi_zero, psi_recursion, psi_recursion_trunc, psi_recursion_ar_part,
+                                                  psi_arma11 (closed form ψ_j = φ^{j−1}(φ+θ))
+  impulse_response = ψ (all p, q; F6 repaired)    arma_impulse; the defect itself: tfImpulse_delay,
+                                                  arma_impulse_unpadded_iff / _shift / _delayed / _of_le
+  simulation = ψ * (σ ε)                          arma_simulation
+  spectral density = σ²|θ(e^{-iw})/φ(e^{-iw})|²    spectral_density_formula, spectral_density_arma11
+  hamilton_filter: cycle + trend = data, OLS      hamiltonP_decomposition, hamiltonP_nan_prefix, hamiltonP_length,
+                                                  hamilton_lag_matrix, hamilton_target, hamilton_ols_orthogonal,
+                                                  hamilton_cycle_orthogonal (normal equations are a hypothesis)
+  … h-step difference when p is omitted           hamiltonNoP_spec
+  periodogram at the Fourier frequencies in [0,π] periodogram_index, periodogram_count (the FFT is not modelled)
+  smooth (observe_at)                             smooth_error_iff, smooth_length, smooth_pointwise, reflectPad_spec,
+                                                  smooth_weights_sum_one, flatWin_sum,
+                                                  bartlett_getD, bartlett_symm
+  shorrocks_index / rank_size (observe_at)        shorrocks_spec, shorrocks_identity, rankSize_spec
+  Not proved (numerical tests in harness/c19.py): autocovariance by inverse FFT, |FFT|²/n, freqz, dimpulse/dlsim
+  numerics, sqrt in std/skew, the cosine windows.
 -/
 import QEModel.C19
+import QEProofs.Lemmas.C19Arma
+import QEProofs.Lemmas.C19Ineq
+import QEProofs.Lemmas.C19BB
+import QEProofs.Lemmas.C19Area
+import QEProofs.Lemmas.C19Ham
+set_option linter.unusedSectionVars false
 namespace QE.C19
+
+/-! ## ARMA: impulse response = the ARMA recursion -/
+
+section arma
+variable {K : Type} [Field K]
+
+theorem psi_length (φ θ : List K) (N : Nat) : (psi φ θ N).length = N := length_unfoldHist _ _
+
+/-- `ψ_0 = 1` -/
+theorem psi_zero (φ θ : List K) (N : Nat) (hN : 0 < N) : (psi φ θ N).getD 0 0 = 1 := by
+  unfold psi
+  rw [getD_unfoldHist _ _ _ _ hN]
+  simp [psiStep]
+
+/-- **ARMA recursion**: for `1 ≤ j < N`, `ψ_j = θ_j + Σ_{i=1..j} φ_i ψ_{j−i}` (0-based lists: `θ_j = θ[j−1]`,
+    `φ_{i+1} = φ[i]`; coefficients beyond the orders are the zeros of the polynomials). -/
+theorem psi_recursion (φ θ : List K) (N j : Nat) (hj : 0 < j) (hjN : j < N) :
+    (psi φ θ N).getD j 0
+      = θ.getD (j - 1) 0 + ((List.range j).map fun i => φ.getD i 0 * (psi φ θ N).getD (j - 1 - i) 0).sum := by
+  unfold psi
+  rw [getD_unfoldHist _ _ _ _ hjN]
+  show psiStep φ θ _ j = _
+  unfold psiStep
+  rw [if_neg (by omega)]
+  congr 2
+  apply List.map_congr_left
+  intro i hi
+  have hi' : i < j := List.mem_range.mp hi
+  rw [getD_unfoldHist_of_lt _ N j (j - 1 - i) 0 (by omega) (by omega)]
+
+/-- the recursion beyond the MA order: `ψ_j = Σ φ_i ψ_{j−i}` for `j > q` -/
+theorem psi_recursion_ar_part (φ θ : List K) (N j : Nat) (hq : θ.length < j) (hjN : j < N) :
+    (psi φ θ N).getD j 0
+      = ((List.range j).map fun i => φ.getD i 0 * (psi φ θ N).getD (j - 1 - i) 0).sum := by
+  rw [psi_recursion φ θ N j (by omega) hjN, List.getD_eq_default _ _ (by omega), zero_add]
+
+/-- **impulse_response (repaired padding).** For *all* orders `p, q` (no `p ≤ q` hypothesis) the impulse response
+    of the transfer function handed to `dimpulse` — `(ma_poly ++ 0…, ar_poly)` read in descending powers of `z` —
+    is the sequence `ψ` of the ARMA recursion. -/
+theorem arma_impulse (φ θ : List K) (N : Nat) : impulseResponse φ θ N = some (psi φ θ N) := by
+  unfold impulseResponse tfImpulse
+  have hlen := impulsePolys_len φ θ
+  simp only [hlen, lt_irrefl, if_false, Nat.sub_self, List.replicate_zero, List.nil_append, Option.map_some]
+  unfold serDiv psi
+  congr 1
+  rw [← take_unfoldHist (psiStep φ θ) (max N 2) N (le_max_left _ _)]
+  congr 1
+  apply unfoldHist_congr
+  intro hs k
+  apply divStep_eq_psiStep
+  · exact impulsePolys_ma_getD φ θ
+  · intro i
+    exact armaPolys_ar_getD φ θ i
+
+theorem armaPolys_ar_length (φ θ : List K) :
+    (armaPolys φ θ).2.length = max (φ.length + 1) (θ.length + 1) := by
+  unfold armaPolys
+  simp only
+  split
+  · rename_i h
+    simp only [List.length_append, List.length_replicate, List.length_cons, List.length_map] at h ⊢
+    omega
+  · rename_i h
+    simp only [List.length_cons, List.length_map] at h ⊢
+    omega
+
+/-- Without the padding of `ma_poly` (the code before the repair of F6) the two readings agree when `p ≤ q` … -/
+theorem arma_impulse_unpadded_of_le (φ θ : List K) (N : Nat) (h : φ.length ≤ θ.length) :
+    impulseResponseUnpadded φ θ N = some (psi φ θ N) := by
+  unfold impulseResponseUnpadded tfImpulse
+  have hlen : (armaPolys φ θ).2.length = (armaPolys φ θ).1.length := by
+    rw [armaPolys_ar_length, armaPolys_ma]; simp only [List.length_cons]; omega
+  simp only [hlen, lt_irrefl, if_false, Nat.sub_self, List.replicate_zero, List.nil_append]
+  unfold serDiv psi
+  congr 1
+  apply unfoldHist_congr
+  intro hs k
+  apply divStep_eq_psiStep
+  · intro i; rw [armaPolys_ma]
+  · exact armaPolys_ar_getD φ θ
+
+/-- … and for `p > q` the unpadded system is a *delayed* response: its first coefficient is `0`, not `ψ_0 = 1`.
+    This is defect F6 (`φ=(.5,−.2,.1), θ=(.4)` gave `[0,0,1,0.9,…]`); `arma_impulse` shows the repaired padding
+    removes the hypothesis. -/
+theorem arma_impulse_unpadded_delayed (φ θ : List K) (N : Nat) (h : θ.length < φ.length) (hN : 0 < N) :
+    ∃ l, impulseResponseUnpadded φ θ N = some l ∧ l.getD 0 0 = 0 ∧ some l ≠ some (psi φ θ N) := by
+  unfold impulseResponseUnpadded tfImpulse
+  have hlen : (armaPolys φ θ).2.length = φ.length + 1 := by
+    rw [armaPolys_ar_length]; omega
+  have hma : (armaPolys φ θ).1.length = θ.length + 1 := by rw [armaPolys_ma]; rfl
+  rw [if_neg (by rw [hlen, hma]; omega)]
+  refine ⟨_, rfl, ?_, ?_⟩
+  · unfold serDiv
+    rw [getD_unfoldHist _ _ _ _ hN]
+    unfold divStep
+    have hd : (armaPolys φ θ).2.length - (armaPolys φ θ).1.length = (φ.length - θ.length - 1) + 1 := by
+      rw [hlen, hma]; omega
+    rw [hd, List.replicate_succ]
+    simp
+  · intro hEq
+    have h1 := congrArg (fun o : Option (List K) => (o.getD []).getD 0 0) hEq
+    simp only [Option.getD_some] at h1
+    rw [psi_zero φ θ N hN] at h1
+    have h0 : (serDiv (List.replicate ((armaPolys φ θ).2.length - (armaPolys φ θ).1.length) 0 ++ (armaPolys φ θ).1)
+        (armaPolys φ θ).2 N).getD 0 0 = 0 := by
+      unfold serDiv
+      rw [getD_unfoldHist _ _ _ _ hN]
+      unfold divStep
+      have hd : (armaPolys φ θ).2.length - (armaPolys φ θ).1.length = (φ.length - θ.length - 1) + 1 := by
+        rw [hlen, hma]; omega
+      rw [hd, List.replicate_succ]
+      simp
+    rw [h0] at h1
+    exact zero_ne_one h1
+
+/-- the recursion with the sum cut at the AR order: `ψ_j = θ_j + Σ_{i=1..min(j,p)} φ_i ψ_{j−i}`, every read of
+    `φ` inside the list -/
+theorem psi_recursion_trunc (φ θ : List K) (N j : Nat) (hj : 0 < j) (hjN : j < N) :
+    (psi φ θ N).getD j 0
+      = θ.getD (j - 1) 0
+        + ((List.range (min j φ.length)).map fun i => φ.getD i 0 * (psi φ θ N).getD (j - 1 - i) 0).sum := by
+  rw [psi_recursion φ θ N j hj hjN, list_sum_range_map, list_sum_range_map]
+  congr 1
+  symm
+  apply Finset.sum_subset (Finset.range_subset_range.mpr (min_le_left _ _))
+  intro i hi hni
+  have hi' : i < j := Finset.mem_range.mp hi
+  have hp : φ.length ≤ i := by
+    by_contra hc
+    exact hni (Finset.mem_range.mpr (lt_min hi' (by omega)))
+  rw [List.getD_eq_default _ _ hp, zero_mul]
+
+/-- textbook closed form, ARMA(1,1): `ψ_0 = 1`, `ψ_j = φ^{j−1}(φ + θ)` for `j ≥ 1` (with `θ = 0`: AR(1), `ψ_j = φ^j`) -/
+theorem psi_arma11 (φ θ : K) (N j : Nat) (hj : 0 < j) (hjN : j < N) :
+    (psi [φ] [θ] N).getD j 0 = φ ^ (j - 1) * (φ + θ) := by
+  induction j with
+  | zero => omega
+  | succ j ih =>
+    rw [psi_recursion_trunc [φ] [θ] N (j + 1) (by omega) hjN]
+    have hmin : min (j + 1) [φ].length = 1 := by simp
+    rw [hmin]
+    simp only [List.range_one, List.map_cons, List.map_nil, List.sum_cons, List.sum_nil, List.getD_cons_zero,
+      Nat.add_sub_cancel, Nat.sub_zero, add_zero]
+    by_cases hj0 : j = 0
+    · subst hj0
+      rw [psi_zero [φ] [θ] N (by omega)]
+      simp; ring
+    · rw [ih (by omega) (by omega), List.getD_eq_default _ _ (by simp; omega)]
+      have : j - 1 + 1 = j := by omega
+      rw [zero_add, ← mul_assoc, ← pow_succ', this]
+
+example : psi [(1/2 : ℚ)] [1/4] 4 = [1, 3/4, 3/8, 3/16] := by decide +kernel
+
+/-- the design's `arma_impulse_iff`: with the *old* padding rule the transfer-function reading equals `ψ`
+    **iff** `p ≤ q` -/
+theorem arma_impulse_unpadded_iff (φ θ : List K) (N : Nat) (hN : 0 < N) :
+    impulseResponseUnpadded φ θ N = some (psi φ θ N) ↔ φ.length ≤ θ.length := by
+  constructor
+  · intro h
+    by_contra hc
+    obtain ⟨l, hl, _, hne⟩ := arma_impulse_unpadded_delayed φ θ N (by omega) hN
+    rw [hl] at h
+    exact hne h
+  · exact arma_impulse_unpadded_of_le φ θ N
+
+/-- the general fact behind F6 — **what SciPy does with a numerator shorter than the denominator**: it is the
+    series `num/den` delayed by the length difference. -/
+theorem tfImpulse_delay (num den : List K) (N : Nat) (h : num.length ≤ den.length) :
+    tfImpulse num den (den.length - num.length + N)
+      = some (List.replicate (den.length - num.length) 0 ++ serDiv num den N) := by
+  unfold tfImpulse
+  rw [if_neg (by omega), serDiv_delay]
+
+/-- **F6 in full**: for `p > q` the unpadded system returns `ψ` shifted by exactly `p − q` periods
+    (`φ=(.5,−.2,.1), θ=(.4)` ⇒ `[0,0,1,0.9,…]`). -/
+theorem arma_impulse_unpadded_shift (φ θ : List K) (N : Nat) (h : θ.length < φ.length) :
+    impulseResponseUnpadded φ θ (φ.length - θ.length + N)
+      = some (List.replicate (φ.length - θ.length) 0 ++ psi φ θ N) := by
+  unfold impulseResponseUnpadded
+  have hlen : (armaPolys φ θ).2.length = φ.length + 1 := by
+    rw [armaPolys_ar_length]; omega
+  have hma : (armaPolys φ θ).1.length = θ.length + 1 := by rw [armaPolys_ma]; rfl
+  have hd : (armaPolys φ θ).2.length - (armaPolys φ θ).1.length = φ.length - θ.length := by
+    rw [hlen, hma]; omega
+  have := tfImpulse_delay (armaPolys φ θ).1 (armaPolys φ θ).2 N (by rw [hlen, hma]; omega)
+  rw [hd] at this
+  rw [this]
+  congr 2
+  unfold serDiv psi
+  apply unfoldHist_congr
+  intro hs k
+  apply divStep_eq_psiStep
+  · intro i; rw [armaPolys_ma]
+  · exact armaPolys_ar_getD φ θ
+
+example : impulseResponseUnpadded [(1/2 : ℚ), -1/5, 1/10] [2/5] 5 = some [0, 0, 1, 9/10, 1/4] := by
+  decide +kernel
+
+example : impulseResponse [(1/2 : ℚ), -1/5, 1/10] [2/5] 4 = some [1, 9/10, 1/4, 9/200] := by
+  decide +kernel
+
+/-- **simulation**: with the shocks given, the simulated path is the convolution of `ψ` with `σ·ε`
+    (`x_t = Σ_{j≤t} ψ_j σ ε_{t−j}`), for all orders -/
+theorem arma_simulation (φ θ : List K) (σ : K) (eps : List K) :
+    simulate φ θ σ eps = some ((List.range eps.length).map fun t =>
+      ((List.range (t + 1)).map fun j => (psi φ θ eps.length).getD j 0 * (σ * eps.getD (t - j) 0)).sum) := by
+  unfold simulate
+  rw [arma_impulse]
+  rfl
+
+/-- **spectral density**: `σ² |θ(e^{-iw})|² / |φ(e^{-iw})|²` with `θ(z) = 1 + θ₁z + …`, `φ(z) = 1 − φ₁z − …`
+    (the zero padding of `ar_poly` plays no role), `e^{-iw} = (c, −s)`. -/
+theorem spectral_density_formula (φ θ : List K) (σ c s : K) :
+    specDens φ θ σ c s
+      = σ * σ * normSq (polyEvalC (1 :: θ) (c, -s)) / normSq (polyEvalC (1 :: φ.map fun x => -x) (c, -s)) := by
+  unfold specDens
+  simp only [armaPolys_ar_eval, armaPolys_ma]
+
+/-- the textbook ARMA(1,1) case: `f(w) = σ² (1 + 2θ cos w + θ²) / (1 − 2φ cos w + φ²)` on the unit circle -/
+theorem spectral_density_arma11 (φ θ σ c s : K) (hcs : c * c + s * s = 1) :
+    specDens [φ] [θ] σ c s = σ * σ * (1 + (1 + 1) * θ * c + θ * θ) / (1 - (1 + 1) * φ * c + φ * φ) := by
+  rw [spectral_density_formula]
+  have h1 : normSq (polyEvalC [1, θ] (c, -s)) = 1 + (1 + 1) * θ * c + θ * θ := by
+    simp only [polyEvalC, List.foldr, cadd, cmul, normSq]
+    linear_combination (θ * θ) * hcs
+  have h2 : normSq (polyEvalC (1 :: [φ].map fun x => -x) (c, -s)) = 1 - (1 + 1) * φ * c + φ * φ := by
+    simp only [List.map, polyEvalC, List.foldr, cadd, cmul, normSq]
+    linear_combination (φ * φ) * hcs
+  rw [h1, h2]
+
+example : specDens [(1/2 : ℚ)] [1/4, 1/2, 1] 1 (3/5) (4/5) = 2141 / 1300 := by decide +kernel
+
+end arma
+
+/-! ## Gini coefficient, Lorenz curve, ECDF -/
+
+section ineq
+variable {K : Type} [Field K] [LinearOrder K] [IsStrictOrderedRing K]
+
+/-- the model's `abs` is the absolute value, so `giniNum y = Σ_i Σ_j |y_i − y_j|` -/
+theorem giniNum_eq_abs (y : List K) :
+    giniNum y = (y.map fun a => (y.map fun b => |a - b|).sum).sum := by
+  unfold giniNum giniRowSum
+  simp only [absv_eq_abs]
+
+/-- **definition**: `gini = (mean absolute difference) / (2 · mean)` with
+    `MAD = Σ_{i,j}|y_i − y_j| / n²`, `mean = Σ y / n` (non-empty sample, non-zero total). -/
+theorem gini_eq_mad (y : List K) (hn : y ≠ []) (hS : y.sum ≠ 0) :
+    gini y = (giniNum y / ((y.length : K) * (y.length : K))) / ((1 + 1) * (y.sum / (y.length : K))) := by
+  have hlen : (y.length : K) ≠ 0 := by
+    have : y.length ≠ 0 := by simpa [List.length_eq_zero_iff] using hn
+    exact_mod_cast this
+  unfold gini giniDen
+  field_simp
+
+/-- **permutation invariance** -/
+theorem gini_perm {y y' : List K} (h : y.Perm y') : gini y = gini y' := by
+  unfold gini
+  rw [giniNum_perm h, giniDen_perm h]
+
+/-- **invariance under positive rescaling** -/
+theorem gini_scale (c : K) (hc : 0 < c) (y : List K) : gini (y.map fun v => c * v) = gini y := by
+  unfold gini
+  rw [giniNum_scale c hc, giniDen_scale, mul_div_mul_left _ _ (ne_of_gt hc)]
+
+example : gini [(1 : ℚ), 2, 3] = 2 / 9 := by decide +kernel
+example : gini ([(1 : ℚ), 2, 3].map fun v => 7 / 2 * v) = 2 / 9 := by decide +kernel
+
+/-- the Lorenz abscissae: `cum_people[i] = i/n`, in particular `0` at `0` and `1` at `n` -/
+theorem lorenzPeople_getD (y : List K) (i : Nat) (hi : i ≤ y.length) :
+    (lorenzPeople y).getD i 0 = (i : K) / (y.length : K) := by
+  unfold lorenzPeople
+  rw [List.getD_eq_getElem _ _ (by simp; omega)]
+  simp only [List.getElem_map, List.getElem_range]
+  split
+  · rename_i h; subst h; simp
+  · rfl
+
+/-- `cum_income[i] = s_i / s_n` with `s_0 = 0`, `s_{i+1} = s_i + y_(i)` (`y_(i)` the sorted sample) -/
+theorem lorenzIncome_getD (y : List K) (i : Nat) (hi : i ≤ y.length) :
+    (lorenzIncome y).getD i 0 = (lorenzS y).getD i 0 / (lorenzS y).getD y.length 0 := by
+  unfold lorenzIncome
+  simp only
+  rw [List.getD_eq_getElem _ _ (by simp; omega)]
+  simp only [List.getElem_map, List.getElem_range]
+  split
+  · rename_i h; subst h; simp [lorenzS]
+  · rfl
+
+theorem lorenzS_total (y : List K) : (lorenzS y).getD y.length 0 = y.sum := by
+  unfold lorenzS
+  have h := cumsum_last (0 : K) (sortL y)
+  rw [sortL_length, zero_add, (sortL_perm y).sum_eq] at h
+  exact h
+
+/-- **the curve ends at (1,1)** and starts at (0,0) -/
+theorem lorenz_endpoints (y : List K) (hn : y ≠ []) (hS : y.sum ≠ 0) :
+    (lorenzPeople y).getD 0 0 = 0 ∧ (lorenzIncome y).getD 0 0 = 0 ∧
+    (lorenzPeople y).getD y.length 0 = 1 ∧ (lorenzIncome y).getD y.length 0 = 1 := by
+  have hlen : (y.length : K) ≠ 0 := by
+    have : y.length ≠ 0 := by simpa [List.length_eq_zero_iff] using hn
+    exact_mod_cast this
+  refine ⟨?_, ?_, ?_, ?_⟩
+  · rw [lorenzPeople_getD y 0 (by omega)]; simp
+  · rw [lorenzIncome_getD y 0 (by omega)]; simp [lorenzS]
+  · rw [lorenzPeople_getD y _ (le_refl _), div_self hlen]
+  · rw [lorenzIncome_getD y _ (le_refl _), lorenzS_total, div_self hS]
+
+/-- **increments are the sorted shares**: `L_{i+1} − L_i = y_(i) / Σ y` -/
+theorem lorenz_increment (y : List K) (i : Nat) (hi : i < y.length) :
+    (lorenzIncome y).getD (i + 1) 0 - (lorenzIncome y).getD i 0 = (sortL y).getD i 0 / y.sum := by
+  rw [lorenzIncome_getD y (i + 1) (by omega), lorenzIncome_getD y i (by omega), lorenzS_total]
+  unfold lorenzS
+  rw [cumsum_step 0 (sortL y) i (by rw [sortL_length]; exact hi)]
+  ring
+
+/-- **non-decreasing** for non-negative samples with positive total -/
+theorem lorenz_monotone (y : List K) (hy : ∀ v ∈ y, 0 ≤ v) (hS : 0 < y.sum) (i : Nat) (hi : i < y.length) :
+    (lorenzIncome y).getD i 0 ≤ (lorenzIncome y).getD (i + 1) 0 := by
+  have h := lorenz_increment y i hi
+  have hmem : (sortL y).getD i 0 ∈ y := by
+    rw [List.getD_eq_getElem _ _ (by rw [sortL_length]; exact hi)]
+    exact (sortL_perm y).subset (List.getElem_mem _)
+  have : 0 ≤ (sortL y).getD i 0 / y.sum := div_nonneg (hy _ hmem) (le_of_lt hS)
+  linarith
+
+/-- **convex**: the increments are non-decreasing (positive total) -/
+theorem lorenz_convex (y : List K) (hS : 0 < y.sum) (i : Nat) (hi : i + 1 < y.length) :
+    (lorenzIncome y).getD (i + 1) 0 - (lorenzIncome y).getD i 0
+      ≤ (lorenzIncome y).getD (i + 2) 0 - (lorenzIncome y).getD (i + 1) 0 := by
+  rw [lorenz_increment y i (by omega), lorenz_increment y (i + 1) hi]
+  apply div_le_div_of_nonneg_right _ (le_of_lt hS)
+  exact sorted_getD_le (sortL_sorted y) i (i + 1) (by omega) (by rw [sortL_length]; exact hi)
+
+/-- **the Lorenz curve lies on or below the diagonal**: `L_i ≤ i/n` (positive total; the `i` smallest
+    observations have at most the average share) -/
+theorem lorenz_below_diagonal (y : List K) (hS : 0 < y.sum) (i : ℕ) (hi : i ≤ y.length) :
+    (lorenzIncome y).getD i 0 ≤ (lorenzPeople y).getD i 0 := by
+  have hn : y ≠ [] := by
+    intro h; rw [h] at hS; simp at hS
+  have hlen : (0 : K) < (y.length : K) := by
+    have : 0 < y.length := List.length_pos_iff.mpr hn
+    exact_mod_cast this
+  rw [lorenzIncome_getD y i hi, lorenzPeople_getD y i hi, lorenzS_total]
+  unfold lorenzS
+  rw [cumsum_getD_take 0 (sortL y) i (by rw [sortL_length]; exact hi), zero_add, div_le_div_iff₀ hS hlen]
+  have h := sorted_prefix_mean (sortL y) (sortL_sorted y) i (by rw [sortL_length]; exact hi)
+  rw [sortL_length, (sortL_perm y).sum_eq] at h
+  linarith
+
+/-- the model's trapezoid area is `Σ_{i<n}(s_i + s_{i+1}) / (2 n Σy)` with `s` the cumulative sums of the sorted
+    sample -/
+theorem lorenzArea_eq (y : List K) :
+    lorenzArea y = trapSum 0 (sortL y) / ((1 + 1) * (y.length : K) * y.sum) := by
+  unfold lorenzArea trapSum
+  simp only
+  rw [list_sum_range_map, sortL_length, Finset.sum_div]
+  apply Finset.sum_congr rfl
+  intro i hi
+  have hi' : i < y.length := Finset.mem_range.mp hi
+  rw [lorenzIncome_getD y i (by omega), lorenzIncome_getD y (i + 1) (by omega), lorenzS_total]
+  unfold lorenzS
+  by_cases hS : y.sum = 0
+  · simp [hS]
+  · by_cases hn : (y.length : K) = 0
+    · simp [hn]
+    · field_simp
+
+/-- **Gini = 1 − 2·(area under the Lorenz curve)** (trapezoid area of the piecewise-linear curve through the
+    points returned by `lorenz_curve`), every non-empty sample with non-zero total. -/
+theorem gini_eq_lorenz_area (y : List K) (hn : y ≠ []) (hS : y.sum ≠ 0) :
+    gini y = 1 - (1 + 1) * lorenzArea y := by
+  have hlen : (y.length : K) ≠ 0 := by
+    have : y.length ≠ 0 := by simpa [List.length_eq_zero_iff] using hn
+    exact_mod_cast this
+  rw [lorenzArea_eq, gini_perm (sortL_perm y).symm]
+  have key := giniNum_trapSum (sortL y) (sortL_sorted y) 0
+  rw [sortL_length, (sortL_perm y).sum_eq] at key
+  unfold gini giniDen
+  rw [sortL_length, (sortL_perm y).sum_eq]
+  have h2 : (1 + 1 : K) ≠ 0 := by
+    have : (0 : K) < 1 + 1 := by positivity
+    exact ne_of_gt this
+  have hG : giniNum (sortL y) = (1 + 1) * (y.length : K) * y.sum - (1 + 1) * trapSum 0 (sortL y) := by
+    linear_combination key
+  rw [hG]
+  field_simp
+
+/-- **range**: for a non-negative sample with positive total, `0 ≤ gini ≤ 1` -/
+theorem gini_range (y : List K) (hy : ∀ v ∈ y, 0 ≤ v) (hS : 0 < y.sum) : 0 ≤ gini y ∧ gini y ≤ 1 := by
+  have hn : y ≠ [] := by
+    intro h; rw [h] at hS; simp at hS
+  have hlen : (0 : K) < (y.length : K) := by
+    have : 0 < y.length := List.length_pos_iff.mpr hn
+    exact_mod_cast this
+  have hden : 0 < (1 + 1) * (y.length : K) * y.sum := by positivity
+  constructor
+  · unfold gini giniDen
+    exact div_nonneg (giniNum_nonneg y) (le_of_lt hden)
+  · rw [gini_eq_lorenz_area y hn (ne_of_gt hS), lorenzArea_eq]
+    have hz : ∀ v ∈ sortL y, 0 ≤ v := fun v hv => hy v ((sortL_perm y).subset hv)
+    have : 0 ≤ trapSum 0 (sortL y) / ((1 + 1) * (y.length : K) * y.sum) :=
+      div_nonneg (trapSum_nonneg 0 _ (le_refl _) hz) (le_of_lt hden)
+    linarith
+
+example : gini [(3 : ℚ), 1, 2] = 2 / 9 ∧ lorenzArea [(3 : ℚ), 1, 2] = 7 / 18 := by decide +kernel
+
+example : lorenzIncome [(3 : ℚ), 1, 2] = [0, 1/6, 1/2, 1] := by decide +kernel
+
+/-! ## Shorrocks index, rank-size data -/
+
+/-- `shorrocks_index` raises exactly for non-square input and otherwise is `(m − trace)/(m − 1)` -/
+theorem shorrocks_spec (A : List (List K)) :
+    (shorrocks A = none ↔ A.length ≠ (A.headD []).length) ∧
+    (A.length = (A.headD []).length → shorrocks A =
+      some (((A.length : K) - ((List.range A.length).map fun i => (A.getD i []).getD i 0).sum) / ((A.length : K) - 1))) := by
+  unfold shorrocks
+  by_cases h : A.length = (A.headD []).length
+  · simp [h]
+  · simp [h]
+
+/-- complete immobility: the identity matrix (`m ≥ 2`) has index 0 -/
+theorem shorrocks_identity (m : ℕ) (hm : 2 ≤ m) :
+    shorrocks ((List.range m).map fun i => (List.range m).map fun j => if i = j then (1 : K) else 0) = some 0 := by
+  have hsq := (shorrocks_spec ((List.range m).map fun i => (List.range m).map fun j => if i = j then (1 : K) else 0)).2
+  have hlen : ((List.range m).map fun i => (List.range m).map fun j => if i = j then (1 : K) else 0).length = m := by simp
+  have hhead : (((List.range m).map fun i => (List.range m).map fun j => if i = j then (1 : K) else 0).headD []).length = m := by
+    cases m with
+    | zero => omega
+    | succ k => simp [List.range_succ_eq_map]
+  rw [hsq (by rw [hlen, hhead]), hlen]
+  have hdiag : ((List.range m).map fun i =>
+      ((((List.range m).map fun i => (List.range m).map fun j => if i = j then (1 : K) else 0).getD i []).getD i 0)).sum = (m : K) := by
+    rw [list_sum_range_map]
+    have : ∀ i ∈ Finset.range m,
+        ((((List.range m).map fun i => (List.range m).map fun j => if i = j then (1 : K) else 0).getD i []).getD i 0) = 1 := by
+      intro i hi
+      have hi' : i < m := Finset.mem_range.mp hi
+      have hrow : ((List.range m).map fun i => (List.range m).map fun j => if i = j then (1 : K) else 0).getD i []
+          = (List.range m).map fun j => if i = j then (1 : K) else 0 := by
+        rw [List.getD_eq_getElem _ _ (by simp; exact hi')]
+        simp
+      rw [hrow, List.getD_eq_getElem _ _ (by simp; exact hi')]
+      simp
+    rw [Finset.sum_congr rfl this]
+    simp
+  rw [hdiag, sub_self, zero_div]
+
+/-- `rank_size`: the size data are the `min k n` largest observations in non-increasing order; with `k ≥ n`
+    (`c = 1`) a permutation of the whole sample -/
+theorem rankSize_spec (data : List K) (k : ℕ) :
+    (rankSize data k).length = min k data.length ∧ (rankSize data k).Pairwise (· ≥ ·) ∧
+    (data.length ≤ k → (rankSize data k).Perm data) := by
+  unfold rankSize
+  refine ⟨by simp [sortL_length], ?_, ?_⟩
+  · apply List.Pairwise.sublist (List.take_sublist _ _)
+    rw [List.pairwise_reverse]
+    exact sortL_sorted data
+  · intro hk
+    rw [List.take_of_length_le (by simp [sortL_length]; exact hk)]
+    exact (List.reverse_perm _).trans (sortL_perm data)
+
+example : rankSize [(3 : ℚ), 1, 2, 5] 2 = [5, 3] := by decide +kernel
+
+/-- **ECDF**: `ecdf obs a` is the number of observations `≤ a` divided by the number of observations -/
+theorem ecdf_def (obs : List K) (a : K) :
+    ecdf obs a = ((obs.countP fun o => decide (o ≤ a) : Nat) : K) / (obs.length : K) := by
+  unfold ecdf
+  rw [List.countP_eq_length_filter]
+
+theorem ecdf_range (obs : List K) (hn : obs ≠ []) (a : K) : 0 ≤ ecdf obs a ∧ ecdf obs a ≤ 1 := by
+  have hlen : (0 : K) < (obs.length : K) := by
+    have : 0 < obs.length := List.length_pos_iff.mpr hn
+    exact_mod_cast this
+  rw [ecdf_def]
+  constructor
+  · exact div_nonneg (Nat.cast_nonneg _) (le_of_lt hlen)
+  · rw [div_le_one hlen]
+    exact_mod_cast List.countP_le_length
+
+theorem ecdf_mono (obs : List K) (a b : K) (hab : a ≤ b) : ecdf obs a ≤ ecdf obs b := by
+  rw [ecdf_def, ecdf_def]
+  apply div_le_div_of_nonneg_right _ (Nat.cast_nonneg _)
+  have : obs.countP (fun o => decide (o ≤ a)) ≤ obs.countP (fun o => decide (o ≤ b)) := by
+    apply List.countP_mono_left
+    intro x _ hx
+    simp only [decide_eq_true_eq] at hx ⊢
+    exact le_trans hx hab
+  exact_mod_cast this
+
+/-- at or above the largest observation the ECDF is 1; below the smallest it is 0 -/
+theorem ecdf_top (obs : List K) (hn : obs ≠ []) (a : K) (h : ∀ o ∈ obs, o ≤ a) : ecdf obs a = 1 := by
+  have hlen : (obs.length : K) ≠ 0 := by
+    have : obs.length ≠ 0 := by simpa [List.length_eq_zero_iff] using hn
+    exact_mod_cast this
+  unfold ecdf
+  rw [List.filter_eq_self.mpr (by intro o ho; simpa using h o ho), div_self hlen]
+
+theorem ecdf_bottom (obs : List K) (a : K) (h : ∀ o ∈ obs, a < o) : ecdf obs a = 0 := by
+  unfold ecdf
+  rw [List.filter_eq_nil_iff.mpr (by intro o ho; simpa using h o ho)]
+  simp
+
+example : ecdf [(1 : ℚ), 2, 2, 3] 2 = 3 / 4 := by decide +kernel
+
+end ineq
+
+/-! ## BetaBinomial: the closed-form moments are the moments of the pdf -/
+
+section bb
+variable {K : Type} [Field K] [LinearOrder K] [IsStrictOrderedRing K]
+
+/-- **the pdf sums to one** (Chu–Vandermonde for rising factorials), every `n`, every `a, b > 0` -/
+theorem bb_pdf_sums_to_one (n : ℕ) (a b : K) (ha : 0 < a) (hb : 0 < b) : (bbPdfList n a b).sum = 1 := by
+  unfold bbPdfList
+  rw [list_sum_range_map]
+  exact bb_sum_pdf n a b ha hb
+
+theorem bb_pdf_nonneg (n : ℕ) (a b : K) (ha : 0 < a) (hb : 0 < b) (k : ℕ) : 0 ≤ bbPdf n a b k := by
+  rw [bbPdf_eq]
+  apply div_nonneg
+  · exact mul_nonneg (Nat.cast_nonneg _)
+      (mul_nonneg (le_of_lt (rising_pos a ha k)) (le_of_lt (rising_pos b hb (n - k))))
+  · exact le_of_lt (rising_pos _ (add_pos ha hb) n)
+
+/-- **mean**: `n·a/(a+b)` is the first moment `Σ_k k·pdf(k)` -/
+theorem bb_mean_eq_first_moment (n : ℕ) (a b : K) (ha : 0 < a) (hb : 0 < b) :
+    bbMoment n a b 1 = bbMean n a b := by
+  unfold bbMoment bbMean
+  rw [list_sum_range_map]
+  simp only [List.replicate_succ, List.replicate_zero, List.foldl_cons, List.foldl_nil, one_mul]
+  exact bb_sum_k_pdf n a b ha hb
+
+/-- **variance**: `n·a·b·(a+b+n)/((a+b)²(a+b+1))` is `Σ k² pdf(k) − (Σ k pdf(k))²` -/
+theorem bb_var_eq_central_moment (n : ℕ) (a b : K) (ha : 0 < a) (hb : 0 < b) :
+    bbMoment n a b 2 - bbMoment n a b 1 * bbMoment n a b 1 = bbVar n a b := by
+  rw [bb_mean_eq_first_moment n a b ha hb]
+  unfold bbMoment bbMean bbVar
+  rw [list_sum_range_map]
+  simp only [List.replicate_succ, List.replicate_zero, List.foldl_cons, List.foldl_nil, one_mul]
+  have hsplit : ∀ k : ℕ, (k : K) * (k : K) * bbPdf n a b k
+      = (k : K) * ((k : K) - 1) * bbPdf n a b k + (k : K) * bbPdf n a b k := by
+    intro k; ring
+  simp only [hsplit]
+  rw [Finset.sum_add_distrib, bb_sum_kk1_pdf n a b ha hb, bb_sum_k_pdf n a b ha hb]
+  have hab : a + b ≠ 0 := ne_of_gt (add_pos ha hb)
+  have hab1 : a + b + 1 ≠ 0 := ne_of_gt (by linarith)
+  field_simp
+  ring
+
+/-- **third central moment** of the pdf: `μ₃ = var · t1 / (a+b)` with `t1 = (a+b+2n)(b−a)/(a+b+2)` the first factor
+    of `skew` -/
+theorem bb_third_central_moment (n : ℕ) (a b : K) (ha : 0 < a) (hb : 0 < b) :
+    bbMoment n a b 3 - 3 * bbMoment n a b 1 * bbMoment n a b 2 + 2 * bbMoment n a b 1 ^ 3
+      = bbVar n a b * bbSkewT1 n a b / (a + b) := by
+  unfold bbMoment bbVar bbSkewT1
+  simp only [list_sum_range_map, List.replicate_succ, List.replicate_zero, List.foldl_cons, List.foldl_nil, one_mul]
+  have hs3 : ∀ k : ℕ, (k : K) * (k : K) * (k : K) * bbPdf n a b k
+      = (k : K) * (((k : K) - 1) * ((k : K) - 2)) * bbPdf n a b k
+        + 3 * ((k : K) * ((k : K) - 1) * bbPdf n a b k) + (k : K) * bbPdf n a b k := by
+    intro k; ring
+  have hs2 : ∀ k : ℕ, (k : K) * (k : K) * bbPdf n a b k
+      = (k : K) * ((k : K) - 1) * bbPdf n a b k + (k : K) * bbPdf n a b k := by
+    intro k; ring
+  simp only [hs3, hs2, Finset.sum_add_distrib, ← Finset.mul_sum]
+  rw [bb_sum_kk1k2_pdf n a b ha hb, bb_sum_kk1_pdf n a b ha hb, bb_sum_k_pdf n a b ha hb]
+  have hab : a + b ≠ 0 := ne_of_gt (add_pos ha hb)
+  have hab1 : a + b + 1 ≠ 0 := ne_of_gt (by linarith)
+  have hab2 : a + b + 2 ≠ 0 := ne_of_gt (by linarith)
+  have hab2' : a + b + (1 + 1) ≠ 0 := ne_of_gt (by linarith)
+  field_simp
+  ring
+
+/-- **skewness**: the square of `skew = t1·sqrt(t2²)` is the squared third standardised moment of the pdf:
+    `skew² · var³ = μ₃²`; with `bb_third_central_moment` (`μ₃ = var·t1/(a+b)`, `var > 0`) the sign of `skew`
+    — the sign of `t1` — is the sign of `μ₃`. The square root itself is not modelled. -/
+theorem bb_skew_sq (n : ℕ) (hn : 0 < n) (a b : K) (ha : 0 < a) (hb : 0 < b) :
+    bbSkewSq n a b * bbVar n a b ^ 3 = (bbVar n a b * bbSkewT1 n a b / (a + b)) ^ 2 := by
+  unfold bbSkewSq bbSkewT2sq bbVar bbSkewT1
+  have hnK : (0 : K) < (n : K) := by exact_mod_cast hn
+  have hab : a + b ≠ 0 := ne_of_gt (add_pos ha hb)
+  have hab1 : a + b + 1 ≠ 0 := ne_of_gt (by linarith)
+  have hab2 : a + b + (1 + 1) ≠ 0 := ne_of_gt (by linarith)
+  have hn0 : (n : K) ≠ 0 := ne_of_gt hnK
+  have ha0 : a ≠ 0 := ne_of_gt ha
+  have hb0 : b ≠ 0 := ne_of_gt hb
+  have hnab : (n : K) + a + b ≠ 0 := ne_of_gt (by linarith)
+  field_simp
+  ring
+
+example : bbSkewSq 5 (1/2 : ℚ) 2 = 175 / 108 := by decide +kernel
+
+example : bbPdfList 5 (1/2 : ℚ) 2 = [512/1001, 640/3003, 128/1001, 80/1001, 20/429, 3/143] := by decide +kernel
+example : bbMoment 5 (1/2 : ℚ) 2 1 = 1 ∧ bbVar 5 (1/2 : ℚ) 2 = 12/7 := by decide +kernel
+
+end bb
+
+/-! ## Hamilton filter -/
+
+section hamilton
+variable {K : Type} [Field K]
+open Finset QE.MatAlg
+
+/-- **lag matrix**: `X[t,0] = 1`, `X[t,j] = y[p−j+t]` for `1 ≤ j ≤ p`, and every such read is inside the data
+    (so the totalised `getD` never supplies a value). -/
+theorem hamilton_lag_matrix (y : List K) (h p t j : ℕ) (ht : t < y.length + 1 - p - h) (hj1 : 1 ≤ j) (hj : j ≤ p) :
+    (hamX y h p).get t 0 = 1 ∧ (hamX y h p).get t j = y.getD (p - j + t) 0 ∧ p - j + t < y.length := by
+  refine ⟨?_, ?_, by omega⟩
+  · rw [hamX_get y h p t 0 ht (by omega)]; simp
+  · rw [hamX_get y h p t j ht (by omega), if_neg (by omega)]
+
+/-- the regressand is `y[p+h−1+t]`, inside the data -/
+theorem hamilton_target (y : List K) (h p t : ℕ) (hph : 1 ≤ p + h) (ht : t < y.length + 1 - p - h) :
+    (hamTarget y h p).get t 0 = y.getD (p + h - 1 + t) 0 ∧ p + h - 1 + t < y.length :=
+  ⟨hamTarget_get y h p t ht, by omega⟩
+
+theorem hamiltonP_length (y : List K) (h p : ℕ) (b : M K) (hph : 1 ≤ p + h) (hT : p + h ≤ y.length + 1) :
+    (hamiltonP y h p b).1.length = y.length ∧ (hamiltonP y h p b).2.length = y.length := by
+  unfold hamiltonP
+  refine ⟨by simp, ?_⟩
+  simp only [List.length_map, List.length_append, List.length_replicate, hamFit_length]
+  omega
+
+/-- **with `p`: nan prefix** of length `p+h−1` in both outputs -/
+theorem hamiltonP_nan_prefix (y : List K) (h p : ℕ) (b : M K) (t : ℕ) (ht : t < p + h - 1) (htT : t < y.length) :
+    (hamiltonP y h p b).1.getD t (some 0) = none ∧ (hamiltonP y h p b).2.getD t (some 0) = none := by
+  unfold hamiltonP
+  simp only
+  constructor
+  · rw [List.getD_eq_getElem _ _ (by simp; exact htT)]
+    simp only [List.getElem_map, List.getElem_range]
+    rw [getD_replicate_append_lt _ _ _ _ _ ht]
+  · rw [getD_replicate_append_lt _ _ _ _ _ ht]
+
+/-- **with `p`: `cycle + trend = data`** from period `p+h−1` on, for *any* coefficient vector `b`, and the trend
+    there is the fitted value `(X b)[t−(p+h−1)]`. -/
+theorem hamiltonP_decomposition (y : List K) (h p : ℕ) (b : M K) (hph : 1 ≤ p + h) (t : ℕ)
+    (ht1 : p + h - 1 ≤ t) (ht : t < y.length) :
+    ∃ c v, (hamiltonP y h p b).1.getD t none = some c ∧ (hamiltonP y h p b).2.getD t none = some v ∧
+      c + v = y.getD t 0 ∧ v = (hamFit y h p b).getD (t - (p + h - 1)) 0 := by
+  have hidx : t - (p + h - 1) < (hamFit y h p b).length := by rw [hamFit_length]; omega
+  have htrend : (List.replicate (p + h - 1) (none : Option K) ++ (hamFit y h p b).map some).getD t none
+      = some ((hamFit y h p b).getD (t - (p + h - 1)) 0) := by
+    rw [getD_replicate_append_ge _ _ _ _ _ ht1, List.getD_eq_getElem _ _ (by simp; exact hidx),
+      List.getD_eq_getElem _ _ hidx]
+    simp
+  refine ⟨y.getD t 0 - (hamFit y h p b).getD (t - (p + h - 1)) 0, (hamFit y h p b).getD (t - (p + h - 1)) 0, ?_, ?_, ?_, rfl⟩
+  · unfold hamiltonP
+    simp only
+    rw [List.getD_eq_getElem _ _ (by simp; exact ht)]
+    simp only [List.getElem_map, List.getElem_range]
+    rw [htrend]
+  · unfold hamiltonP
+    simp only
+    exact htrend
+  · ring
+
+/-- **without `p`**: `cycle_t = y_t − y_{t−h}` and `trend_t = y_{t−h}` for `t ≥ h`, `nan` before -/
+theorem hamiltonNoP_spec (y : List K) (h : ℕ) (hh : h ≤ y.length) (t : ℕ) (ht : t < y.length) :
+    (hamiltonNoP y h).1.length = y.length ∧ (hamiltonNoP y h).2.length = y.length ∧
+    (t < h → (hamiltonNoP y h).1.getD t (some 0) = none ∧ (hamiltonNoP y h).2.getD t (some 0) = none) ∧
+    (h ≤ t → (hamiltonNoP y h).1.getD t none = some (y.getD t 0 - y.getD (t - h) 0) ∧
+             (hamiltonNoP y h).2.getD t none = some (y.getD (t - h) 0)) := by
+  have hlen : (List.replicate h (none : Option K) ++
+      (List.range (y.length - h)).map fun t => some (y.getD (h + t) 0 - y.getD t 0)).length = y.length := by
+    simp; omega
+  refine ⟨?_, ?_, ?_, ?_⟩
+  · exact hlen
+  · unfold hamiltonNoP; simp only [List.length_map, List.length_range]; exact hlen
+  · intro hlt
+    unfold hamiltonNoP
+    simp only
+    constructor
+    · exact getD_replicate_append_lt _ _ _ _ _ hlt
+    · rw [List.getD_eq_getElem _ _ (by rw [List.length_map, List.length_range, hlen]; exact ht)]
+      simp only [List.getElem_map, List.getElem_range]
+      rw [getD_replicate_append_lt _ _ _ _ _ hlt]
+  · intro hge
+    have hc : (List.replicate h (none : Option K) ++
+        (List.range (y.length - h)).map fun t => some (y.getD (h + t) 0 - y.getD t 0)).getD t none
+        = some (y.getD t 0 - y.getD (t - h) 0) := by
+      rw [getD_replicate_append_ge _ _ _ _ _ hge, List.getD_eq_getElem _ _ (by simp; omega)]
+      simp only [List.getElem_map, List.getElem_range]
+      rw [show h + (t - h) = t by omega]
+    unfold hamiltonNoP
+    simp only
+    refine ⟨hc, ?_⟩
+    rw [List.getD_eq_getElem _ _ (by rw [List.length_map, List.length_range, hlen]; exact ht)]
+    simp only [List.getElem_map, List.getElem_range]
+    rw [hc]
+    simp
+
+/-- **OLS projection**: if `b` solves the normal equations `(XᵀX) b = Xᵀ y₊` (what `np.linalg.solve` is asked for),
+    the residual `y₊ − X b` — the cycle on the defined range — is orthogonal to every regressor: the constant
+    (`j = 0`, so the cycle sums to zero) and each of the `p` lags. -/
+theorem hamilton_ols_orthogonal (y : List K) (h p : ℕ) (b : M K) (hb : b.nc = 1)
+    (hne : ∀ j, j < p + 1 →
+      (mmul (mmul (mT (hamX y h p)) (hamX y h p)) b).get j 0 = (mmul (mT (hamX y h p)) (hamTarget y h p)).get j 0)
+    (j : ℕ) (hj : j < p + 1) :
+    ∑ t ∈ range (y.length + 1 - p - h),
+      (hamX y h p).get t j * ((hamTarget y h p).get t 0 - (hamFit y h p b).getD t 0) = 0 := by
+  have hE := hne j hj
+  rw [mmul_get _ _ _ _ (by simp [hamX_nc]; omega) (by rw [hb]; omega),
+    mmul_get _ _ _ _ (by simp [hamX_nc]; omega) (by rw [hamTarget_nc]; omega)] at hE
+  simp only [mmul_nc, mT_nc, hamX_nc, hamX_nr] at hE
+  have h1 : ∀ k ∈ range (p + 1), (mmul (mT (hamX y h p)) (hamX y h p)).get j k * b.get k 0
+      = ∑ t ∈ range (y.length + 1 - p - h), (hamX y h p).get t j * ((hamX y h p).get t k * b.get k 0) := by
+    intro k hk
+    rw [mmul_get _ _ _ _ (by simp [hamX_nc]; omega) (by rw [hamX_nc]; exact mem_range.mp hk)]
+    simp only [mT_nc, hamX_nr]
+    rw [sum_mul]
+    apply sum_congr rfl
+    intro t ht
+    rw [mT_get _ _ _ (by rw [hamX_nc]; exact hj) (by rw [hamX_nr]; exact mem_range.mp ht)]
+    ring
+  rw [sum_congr rfl h1, sum_comm] at hE
+  have h2 : ∀ t ∈ range (y.length + 1 - p - h), (mT (hamX y h p)).get j t * (hamTarget y h p).get t 0
+      = (hamX y h p).get t j * (hamTarget y h p).get t 0 := by
+    intro t ht
+    rw [mT_get _ _ _ (by rw [hamX_nc]; exact hj) (by rw [hamX_nr]; exact mem_range.mp ht)]
+  rw [sum_congr rfl h2] at hE
+  have h3 : ∀ t ∈ range (y.length + 1 - p - h),
+      (hamX y h p).get t j * ((hamTarget y h p).get t 0 - (hamFit y h p b).getD t 0)
+      = (hamX y h p).get t j * (hamTarget y h p).get t 0
+        - ∑ k ∈ range (p + 1), (hamX y h p).get t j * ((hamX y h p).get t k * b.get k 0) := by
+    intro t ht
+    rw [hamFit_getD y h p b t (mem_range.mp ht),
+      mmul_get _ _ _ _ (by rw [hamX_nr]; exact mem_range.mp ht) (by rw [hb]; omega)]
+    simp only [hamX_nc]
+    rw [mul_sub, mul_sum]
+  rw [sum_congr rfl h3, sum_sub_distrib, ← hE, sub_self]
+
+/-- the same statement on the **returned cycle**: under the normal equations, the defined part of `cycle`
+    (`cycle[p+h−1+t]`, `t < T−p−h+1`) is orthogonal to every column of the lag matrix; with `j = 0` the cycle
+    sums to zero. -/
+theorem hamilton_cycle_orthogonal (y : List K) (h p : ℕ) (b : M K) (hb : b.nc = 1) (hph : 1 ≤ p + h)
+    (hne : ∀ j, j < p + 1 →
+      (mmul (mmul (mT (hamX y h p)) (hamX y h p)) b).get j 0 = (mmul (mT (hamX y h p)) (hamTarget y h p)).get j 0)
+    (j : ℕ) (hj : j < p + 1) :
+    ∑ t ∈ range (y.length + 1 - p - h),
+      (hamX y h p).get t j * (((hamiltonP y h p b).1.getD (p + h - 1 + t) none).getD 0) = 0 := by
+  rw [← hamilton_ols_orthogonal y h p b hb hne j hj]
+  apply sum_congr rfl
+  intro t ht
+  have ht' : t < y.length + 1 - p - h := mem_range.mp ht
+  obtain ⟨c, v, hc, _, hcv, hv⟩ := hamiltonP_decomposition y h p b hph (p + h - 1 + t) (by omega) (by omega)
+  rw [hc, Option.getD_some, hamTarget_get y h p t ht']
+  rw [show p + h - 1 + t - (p + h - 1) = t by omega] at hv
+  rw [← hv, ← hcv]
+  ring
+
+/-- non-vacuity: the exact Gauss–Jordan solution of the driver satisfies the normal equations of
+    `hamilton_ols_orthogonal` on a concrete series (`y_t = t²`, `h = 2`, `p = 1`) -/
+example : (match hamOLS [(0 : ℚ), 1, 4, 9, 16, 25, 36, 49, 64, 81] 2 1 with
+    | some b =>
+      let y : List ℚ := [0, 1, 4, 9, 16, 25, 36, 49, 64, 81]
+      b.nc == 1 && (List.range 2).all fun j =>
+        (mmul (mmul (mT (hamX y 2 1)) (hamX y 2 1)) b).get j 0 == (mmul (mT (hamX y 2 1)) (hamTarget y 2 1)).get j 0
+    | none => false) = true := by
+  decide +kernel
+
+end hamilton
+
+/-! ## periodogram index set and `smooth` -/
+
+section spectral
+
+/-- **kept Fourier frequencies**: for `n ≥ 1`, `periodogram` keeps exactly the indices `j` with `2πj/n ≤ π`,
+    i.e. `2j ≤ n`: `j = 0..⌊n/2⌋`. -/
+theorem periodogram_index (n j : ℕ) (hn : 0 < n) : j ∈ pgramIdx n ↔ 2 * j ≤ n := by
+  unfold pgramIdx
+  rw [List.mem_range]
+  omega
+
+theorem periodogram_count (n : ℕ) (hn : 0 < n) : (pgramIdx n).length = n / 2 + 1 := by
+  unfold pgramIdx
+  rw [List.length_range]
+  omega
+
+example : pgramIdx 5 = [0, 1, 2] ∧ pgramIdx 4 = [0, 1, 2] := by decide
+
+variable {K : Type} [Field K]
+
+/-- `smooth` raises exactly when the series is shorter than the window (first test) or the window is shorter
+    than 3 (second test) … -/
+theorem smooth_error_iff (win : ℕ → List K) (x : List K) (wl : ℕ) :
+    (smooth win x wl = .error .tooShort ↔ x.length < wl) ∧
+    (smooth win x wl = .error .tooSmall ↔ wl ≤ x.length ∧ wl < 3) := by
+  unfold smooth
+  by_cases h1 : x.length < wl
+  · simp [h1]
+  · by_cases h2 : wl < 3
+    · simp [h1, h2]; omega
+    · simp [h1, h2]
+
+/-- … and otherwise returns a series of the **same length** as the input (the window length is made odd, the
+    series is extended by `⌊wl/2⌋` reflected points at each end, `'valid'` convolution). -/
+theorem smooth_length (win : ℕ → List K) (hwin : ∀ m, (win m).length = m) (x : List K) (wl : ℕ)
+    (h1 : wl ≤ x.length) (h3 : 3 ≤ wl) :
+    ∃ l, smooth win x wl = .ok l ∧ l.length = x.length := by
+  unfold smooth
+  rw [if_neg (by omega), if_neg (by omega)]
+  refine ⟨_, rfl, ?_⟩
+  unfold convolveValid reflectPad
+  simp only [List.length_map, List.length_range, List.length_append, List.length_reverse, List.length_take,
+    hwin]
+  by_cases hpar : wl % 2 = 0
+  · simp only [hpar, if_true]
+    rw [if_neg (by omega)]
+    simp only [List.length_drop]
+    omega
+  · simp only [hpar, if_false]
+    rw [if_neg (by omega)]
+    simp only [List.length_drop]
+    omega
+
+theorem sum_map_div (l : List K) (t : K) : (l.map fun v => v / t).sum = l.sum / t := by
+  induction l with
+  | nil => simp
+  | cons x xs ih => simp only [List.map_cons, List.sum_cons, ih]; ring
+
+/-- the weights actually convolved (`w / w.sum`) **sum to one** whenever the window's total is non-zero … -/
+theorem smooth_weights_sum_one (w : List K) (h : w.sum ≠ 0) : (w.map fun v => v / w.sum).sum = 1 := by
+  rw [sum_map_div, div_self h]
+
+/-- … which holds for the flat window over a field of characteristic zero: total `= m ≠ 0` -/
+theorem flatWin_sum [CharZero K] (m : ℕ) (hm : 0 < m) : (flatWin m : List K).sum = (m : K) ∧ (flatWin m : List K).sum ≠ 0 := by
+  have h1 : (flatWin m : List K).sum = (m : K) := by
+    unfold flatWin
+    induction m with
+    | zero => simp
+    | succ k ih =>
+      rw [List.replicate_succ, List.sum_cons]
+      by_cases hk : k = 0
+      · subst hk; simp
+      · rw [ih (by omega)]; push_cast; ring
+  refine ⟨h1, ?_⟩
+  rw [h1]
+  exact_mod_cast (by omega : m ≠ 0)
+
+/-- **the reflected extension** used by `smooth`: for `1 ≤ k ≤ n` the padded series has length `n + 2k` and
+    `s[j] = x[k−1−j]` (left mirror, `j < k`), `x[j−k]` (the data), `x[n−1−(j−k−n)]` (right mirror, `j ≥ k+n`);
+    every read is inside the data. -/
+theorem reflectPad_spec (x : List K) (k : ℕ) (hk1 : 1 ≤ k) (hk : k ≤ x.length) :
+    (reflectPad x k).length = x.length + 2 * k ∧
+    (∀ j, j < k → (reflectPad x k).getD j 0 = x.getD (k - 1 - j) 0) ∧
+    (∀ j, k ≤ j → j < k + x.length → (reflectPad x k).getD j 0 = x.getD (j - k) 0) ∧
+    (∀ j, k + x.length ≤ j → j < x.length + 2 * k →
+      (reflectPad x k).getD j 0 = x.getD (x.length - 1 - (j - k - x.length)) 0) := by
+  unfold reflectPad
+  rw [if_neg (by omega)]
+  have hl1 : ((x.take k).reverse).length = k := by simp; omega
+  have hl3 : ((x.drop (x.length - k)).reverse).length = k := by simp; omega
+  refine ⟨by simp; omega, ?_, ?_, ?_⟩
+  · intro j hj
+    rw [List.append_assoc, List.getD_append _ _ _ _ (by rw [hl1]; exact hj),
+      List.getD_reverse _ (by simp; omega)]
+    simp only [List.length_take]
+    rw [show min k x.length - 1 - j = k - 1 - j by omega]
+    rw [List.getD_eq_getElem _ _ (by simp; omega), List.getD_eq_getElem _ _ (by omega)]
+    simp
+  · intro j hj1 hj2
+    rw [List.append_assoc, List.getD_append_right _ _ _ _ (by rw [hl1]; exact hj1), hl1,
+      List.getD_append _ _ _ _ (by omega)]
+  · intro j hj1 hj2
+    rw [List.getD_append_right _ _ _ _ (by simp; omega)]
+    simp only [List.length_append, List.length_reverse, List.length_take]
+    rw [List.getD_reverse _ (by simp; omega)]
+    simp only [List.length_drop]
+    rw [List.getD_eq_getElem _ _ (by simp; omega), List.getD_eq_getElem _ _ (by omega)]
+    simp only [List.getElem_drop]
+    congr 1
+    omega
+
+/-- **`smooth` pointwise**: entry `i` of the result is the weighted average
+    `Σ_k (w_k / Σw) · s[i + wl' − 1 − k]` of the reflected series `s`, `wl'` the odd window length, and every `s`
+    read is in range. -/
+theorem smooth_pointwise (win : ℕ → List K) (hwin : ∀ m, (win m).length = m) (x : List K) (wl : ℕ)
+    (h1 : wl ≤ x.length) (h3 : 3 ≤ wl) :
+    let wl' := if wl % 2 = 0 then wl + 1 else wl
+    ∃ l, smooth win x wl = .ok l ∧ ∀ i, i < x.length →
+      l.getD i 0 = ((List.range wl').map fun k =>
+          ((win wl').getD k 0 / (win wl').sum) * (reflectPad x (wl' / 2)).getD (i + wl' - 1 - k) 0).sum ∧
+      ∀ k, k < wl' → i + wl' - 1 - k < (reflectPad x (wl' / 2)).length := by
+  intro wl'
+  have hodd : wl' % 2 = 1 ∧ wl ≤ wl' ∧ wl' ≤ wl + 1 := by
+    simp only [wl']; split <;> omega
+  have hk1 : 1 ≤ wl' / 2 := by omega
+  have hk : wl' / 2 ≤ x.length := by omega
+  have hslen := (reflectPad_spec x (wl' / 2) hk1 hk).1
+  unfold smooth
+  rw [if_neg (by omega), if_neg (by omega)]
+  refine ⟨_, rfl, ?_⟩
+  intro i hi
+  show (convolveValid ((win wl').map fun v => v / (win wl').sum) (reflectPad x (wl' / 2))).getD i 0 = _ ∧ _
+  constructor
+  · unfold convolveValid
+    rw [List.getD_eq_getElem _ _ (by simp [hwin, hslen]; omega)]
+    simp only [List.getElem_map, List.getElem_range, List.length_map, hwin]
+    congr 1
+    apply List.map_congr_left
+    intro k hk'
+    have hk'' : k < wl' := List.mem_range.mp hk'
+    have e1 : ((win wl').map fun v => v / (win wl').sum).getD k 0 = (win wl').getD k 0 / (win wl').sum := by
+      rw [List.getD_eq_getElem _ _ (by simp [hwin]; exact hk''), List.getElem_map,
+        List.getD_eq_getElem (win wl') 0 (by rw [hwin]; exact hk'')]
+    rw [e1]
+  · intro k hk'
+    rw [hslen]; omega
+
+theorem flatWin_length (m : ℕ) : (flatWin m : List K).length = m := by simp [flatWin]
+
+theorem bartlett_length (m : ℕ) : (bartlett m : List K).length = m := by
+  unfold bartlett
+  split
+  · rename_i h; subst h; rfl
+  · simp
+
+example : (match smooth flatWin [(0 : ℚ), 1, 2, 3, 4, 5, 6, 7] 4 with
+    | .ok l => l == [4/5, 6/5, 2, 3, 4, 5, 29/5, 31/5]
+    | .error _ => false) = true := by
+  decide +kernel
+
+end spectral
+
+section bartlettSec
+variable {K : Type} [Field K] [LinearOrder K] [IsStrictOrderedRing K]
+
+/-- the model's two-branch `np.bartlett` is the triangular window `w_i = 1 − |2i − (M−1)|/(M−1)` -/
+theorem bartlett_getD (m i : ℕ) (hm : 2 ≤ m) (hi : i < m) :
+    (bartlett m : List K).getD i 0 = 1 - |2 * (i : K) - ((m : K) - 1)| / ((m : K) - 1) := by
+  unfold bartlett
+  rw [if_neg (by omega), List.getD_eq_getElem _ _ (by simp; exact hi)]
+  simp only [List.getElem_map, List.getElem_range]
+  have hm1 : ((m - 1 : ℕ) : K) = (m : K) - 1 := by
+    rw [Nat.cast_sub (by omega)]; simp
+  split
+  · rename_i h
+    have hc : ((m - 1 - 2 * i : ℕ) : K) = (m : K) - 1 - 2 * (i : K) := by
+      rw [Nat.cast_sub (by omega), Nat.cast_sub (by omega)]; push_cast; ring
+    have hle : 2 * (i : K) - ((m : K) - 1) ≤ 0 := by
+      have : (2 * i + 1 : ℕ) ≤ m := h
+      have h' : ((2 * i + 1 : ℕ) : K) ≤ (m : K) := by exact_mod_cast this
+      push_cast at h'
+      linarith
+    rw [hc, hm1, abs_of_nonpos hle]
+    ring
+  · rename_i h
+    have hc : ((2 * i + 1 - m : ℕ) : K) = 2 * (i : K) + 1 - (m : K) := by
+      rw [Nat.cast_sub (by omega)]; push_cast; ring
+    have hge : 0 ≤ 2 * (i : K) - ((m : K) - 1) := by
+      have : m ≤ 2 * i + 1 := by omega
+      have h' : (m : K) ≤ ((2 * i + 1 : ℕ) : K) := by exact_mod_cast this
+      push_cast at h'
+      linarith
+    rw [hc, hm1, abs_of_nonneg hge]
+    ring
+
+/-- the window is symmetric: `w_i = w_{M−1−i}` -/
+theorem bartlett_symm (m i : ℕ) (hm : 2 ≤ m) (hi : i < m) :
+    (bartlett m : List K).getD i 0 = (bartlett m : List K).getD (m - 1 - i) 0 := by
+  rw [bartlett_getD m i hm hi, bartlett_getD m (m - 1 - i) hm (by omega)]
+  have hc : ((m - 1 - i : ℕ) : K) = (m : K) - 1 - (i : K) := by
+    rw [Nat.cast_sub (by omega), Nat.cast_sub (by omega)]; simp
+  rw [hc]
+  congr 2
+  rw [← abs_neg]
+  congr 1
+  ring
+
+example : (bartlett 5 : List ℚ) = [0, 1/2, 1, 1/2, 0] := by decide +kernel
+
+end bartlettSec
+
+/-! ## non-vacuity of the hypotheses used above (concrete instances over ℚ) -/
+
+section nonvacuity
+
+/-- hypotheses of `lorenz_monotone`, `lorenz_convex`, `gini_range`, `gini_eq_lorenz_area`, `gini_eq_mad` -/
+example : (∀ v ∈ [(3 : ℚ), 1, 2], 0 ≤ v) ∧ (0 : ℚ) < [(3 : ℚ), 1, 2].sum ∧ [(3 : ℚ), 1, 2] ≠ [] := by
+  refine ⟨?_, by norm_num, by simp⟩
+  intro v hv
+  simp only [List.mem_cons, List.not_mem_nil, or_false] at hv
+  rcases hv with rfl | rfl | rfl <;> norm_num
+
+/-- … and the conclusions on that sample: increments `1/6 ≤ 1/3 ≤ 1/2`, `gini = 1 − 2·(7/18)` -/
+example : lorenzIncome [(3 : ℚ), 1, 2] = [0, 1/6, 1/2, 1] ∧ gini [(3 : ℚ), 1, 2] = 1 - (1 + 1) * (7 / 18) := by
+  decide +kernel
+
+/-- hypotheses of the BetaBinomial theorems (`a, b > 0`, `n > 0`) with an asymmetric, non-uniform instance -/
+example : (0 : ℚ) < 1 / 2 ∧ (0 : ℚ) < 2 ∧ 0 < 5 ∧ (bbPdfList 5 (1/2 : ℚ) 2).sum = 1 ∧
+    bbMoment 5 (1/2 : ℚ) 2 2 - bbMoment 5 (1/2 : ℚ) 2 1 * bbMoment 5 (1/2 : ℚ) 2 1 = 12 / 7 := by
+  refine ⟨by norm_num, by norm_num, by norm_num, ?_, ?_⟩ <;> decide +kernel
+
+/-- hypotheses of `psi_recursion` / `arma_impulse_unpadded_shift` (`0 < j < N`, `q < p`) on the F6 input -/
+example : (psi [(1/2 : ℚ), -1/5, 1/10] [2/5] 5).getD 3 0
+    = 0 + ((1/2 : ℚ) * (1/4) + (-1/5) * (9/10) + (1/10) * 1) ∧ [(2/5 : ℚ)].length < [(1/2 : ℚ), -1/5, 1/10].length := by
+  refine ⟨by decide +kernel, by decide⟩
+
+/-- hypotheses of `smooth_length` (`3 ≤ wl ≤ len x`, a window of the right length) and of `hamiltonNoP_spec` -/
+example : (3 ≤ 4 ∧ 4 ≤ [(0 : ℚ), 1, 2, 3, 4, 5, 6, 7].length) ∧
+    (hamiltonNoP [(0 : ℚ), 1, 4, 9, 16] 2).1 = [none, none, some 4, some 8, some 12] := by
+  refine ⟨by decide, by decide +kernel⟩
+
+end nonvacuity
 
 end QE.C19
